@@ -185,8 +185,11 @@ where
             match wait_mode {
                 WaitMode::Block => limiter.until_key_ready(peer_id).await,
                 WaitMode::ReturnError => {
+                    // Read the clock before the check: the limiter's own (later) reading is what the
+                    // decision is based on, so the reported wait is never rounded down to zero.
+                    let now = clock.now();
                     if let Err(e) = limiter.check_key(peer_id) {
-                        let wait_time = e.wait_time_from(clock.now());
+                        let wait_time = e.wait_time_from(now);
                         return Err(anemo::rpc::Status::new(
                             anemo::types::response::StatusCode::TooManyRequests,
                         )
